@@ -81,6 +81,16 @@ theorem one_live_command (gr : Gran) (o : Bool) (cfgs : List Cfg) {s : Sys} (hr 
   exact one_alive_unique g i j (by rw [ei]; exact pi.2) (by rw [ej]; exact pj.2)
     (by unfold Sys.nameOf; rw [ei, ej, pi.1, pj.1])
 
+/-- **The only steps that can overwrite a registration are the registering steps of request
+    threads** (`StartProcess` after its check, `RestartProcess` after its sleep, `Run()`): every step
+    of a process goroutine, of a stop or shutdown in progress, of a waiter or of a probe callback
+    keeps the registrations, whatever the state. So the hypothesis of `one_live_command` can only be
+    broken where the overlap finding R1 lives. -/
+theorem overlap_only_at_registration (s : Sys) (t : Tid) (h : Hints)
+    (hf : ¬ KeepsRegs s (stepThread s t h) t) :
+    ∃ id op, (s.thr t).kind = .api id op ∧ specialApi op (s.thr t).pc = true :=
+  guard_fails_only_when_registering s t h hf
+
 /-- the guard, executable: every registration is kept (or removed by its own goroutine), every
     process goroutine created is registered -/
 def keepsRegsB (s s' : Sys) (t : Tid) : Bool :=
